@@ -217,7 +217,11 @@ pub fn run(ctx: &Ctx) -> Report {
         let _ = &mut rng;
     }
     let variant = ctx.variant.clone();
-    par_run(&cases, ctx.threads, |_, c, rep| {
+    let mut rep12 = Report::new();
+    if ctx.variant == "v3" && ctx.only_panel.as_deref().map(|p| p == "epd12in48b_v2").unwrap_or(true) {
+        crate::props::p12checks::c08(&mut rep12, ctx.tier_thorough);
+    }
+    let mut out = par_run(&cases, ctx.threads, |_, c, rep| {
         let spec = c.spec;
         let syms = syms(spec);
         rep.eval(spec.name);
@@ -269,5 +273,7 @@ pub fn run(ctx: &Ctx) -> Report {
                 }
             }
         }
-    })
+    });
+    out.merge(rep12);
+    out
 }
